@@ -12,6 +12,7 @@ class Ty:
     def __eq__(s, o): return isinstance(o, Ty) and (s.kind, s.arg) == (o.kind, o.arg)
     def __hash__(s): return hash((s.kind, repr(s.arg)))
 INT, BOOL, NONE, STR = Ty('int'), Ty('bool'), Ty('none'), Ty('str')
+DEC = Ty('dec')          # decimal.Decimal: an opaque value with uninterpreted arithmetic (A-dec-1)
 def Ref(c): return Ty('ref', c)          # possibly-null reference to class c (0 == None)
 def ListT(e): return Ty('list', e)       # reference to a list object
 def TupT(ts): return Ty('tuple', tuple(ts))
@@ -32,6 +33,7 @@ def parse_ann(node, tv):
         if n == 'int': return INT
         if n == 'bool': return BOOL
         if n == 'str': return STR
+        if n == 'Decimal': return DEC
         if n == 'IARR': return IARR
         if n == 'THUNK_STR': return Ty('thunk', STR)
         if n == 'Self': return Ref(tv.get('Self', 'object'))
@@ -124,6 +126,11 @@ def sort_of(ty):
     return I
 def field_sort(ty): return ArraySort(I, sort_of(ty))
 
+def _chain(pairs, k):
+    r = IntVal(0)
+    for pos, t in reversed(pairs): r = If(k == pos, t, r)
+    return r
+
 class Obligation:
     def __init__(s, name, prem, goal, kind='assert', focus=None, nohint=None): s.name, s.prem, s.goal, s.kind, s.focus, s.nohint = name, prem, goal, kind, focus, nohint
 
@@ -160,6 +167,7 @@ class Exec:
         s.axioms += [ForAll([x], And(s.str_len(x) >= 0, s.str_cnt(x) >= 0, s.str_rf(x) >= -1, s.str_rf(x) < s.str_len(x),
                                      (s.str_cnt(x) == 0) == (s.str_rf(x) == -1))) for x in [Int('sx')]]
         s.typ = Function('typ', I, I)   # class id of a reference
+        s.dec = {k: Function('dec_' + k, I, I, I) for k in ('add', 'sub', 'mul', 'div')}; s.dec_neg = Function('dec_neg', I, I)
         s.depth = 0; s.cur = '<axioms>'; s.aspect = None; s.owner_stack = []
         st0 = State({}, Heap(alloc=IntVal(1)), [])
         for e in spec.axiom_exprs: s.axioms.append(s.spec_bool(st0, e))
@@ -249,6 +257,8 @@ class Exec:
             c = s.consts.setdefault(('str', v), Int(f'strlit_{len(s.consts)}'))
             if ('strax', v) not in s.consts:
                 s.consts[('strax', v)] = True
+                for k_, c_ in list(s.consts.items()):
+                    if isinstance(k_, tuple) and k_[0] == 'str' and k_[1] != v: s.axioms.append(c != c_)
                 s.axioms.append(And(s.str_len(c) == len(v), s.str_cnt(c) == v.count('\n'), s.str_rf(c) == v.rfind('\n')))
             return SV(c, STR)
         raise Unsupported(f'const {v!r}')
@@ -272,6 +282,8 @@ class Exec:
     def ev_UnaryOp(s, st, e):
         v = s.ev(st, e.operand)
         if isinstance(e.op, ast.Not): return SV(Not(s.truth_st(st, v)), BOOL)
+        if isinstance(e.op, ast.USub) and v.ty == DEC: return SV(s.dec_neg(v.t), DEC)
+        if isinstance(e.op, ast.UAdd) and v.ty == DEC: return v
         if isinstance(e.op, ast.USub): return SV(simplify(-v.t), INT)
         raise Unsupported('unaryop')
     def floordiv(s, st, a, b):
@@ -280,8 +292,20 @@ class Exec:
         raise Unsupported('floordiv by non-constant')
     def ev_BinOp(s, st, e):
         a, b = s.ev(st, e.left), s.ev(st, e.right)
-        if a.ty.kind == 'list' or b.ty.kind == 'list': raise Unsupported('list concat')
         op = type(e.op)
+        if op is ast.Add and a.ty.kind == 'list' and b.ty.kind in ('list', 'tuple'):
+            # tuple / list concatenation: a fresh sequence
+            n1 = s.llen(st.heap, a); arr1 = s.lelem(st.heap, a)
+            if b.ty.kind == 'tuple':
+                elems = list(b.t)
+                return s.new_list(st, a.ty, n1 + len(elems), lambda k: If(k < n1, Select(arr1, k), _chain([(n1 + i_, x_.t) for i_, x_ in enumerate(elems)], k)))
+            n2 = s.llen(st.heap, b); arr2 = s.lelem(st.heap, b)
+            return s.new_list(st, a.ty, n1 + n2, lambda k: If(k < n1, Select(arr1, k), Select(arr2, k - n1)))
+        if a.ty.kind == 'list' or b.ty.kind == 'list': raise Unsupported('list concat')
+        if a.ty == DEC or b.ty == DEC:
+            f = {ast.Add: 'add', ast.Sub: 'sub', ast.Mult: 'mul', ast.Div: 'div'}.get(op)
+            if f is None: raise Unsupported('decimal operator')
+            return SV(s.dec[f](a.t, b.t), DEC)
         if op is ast.Add: return SV(a.t + b.t, INT)
         if op is ast.Sub: return SV(a.t - b.t, INT)
         if op is ast.Mult: return SV(a.t * b.t, INT)
@@ -637,6 +661,9 @@ class Exec:
         if n == 'allocated':
             v = s.ev(st, e.args[0]); return SV(And(v.t > 0, v.t < st.heap.alloc), BOOL)
         if n == 'old_alloc': return SV(st.old.alloc, INT)
+        if n in ('dec_add', 'dec_sub', 'dec_mul', 'dec_div'):
+            a_, b_ = s.ev(st, e.args[0]), s.ev(st, e.args[1]); return SV(s.dec[n[4:]](a_.t, b_.t), DEC)
+        if n == 'dec_neg': return SV(s.dec_neg(s.ev(st, e.args[0]).t), DEC)
         if n == 'count_nl': return SV(s.str_cnt(s.ev(st, e.args[0]).t), INT)
         if n == 'rfind_nl': return SV(s.str_rf(s.ev(st, e.args[0]).t), INT)
         if n == 'strlen': return SV(s.str_len(s.ev(st, e.args[0]).t), INT)
@@ -725,9 +752,14 @@ class Exec:
         tvs = dict(s.p.tv, Self=cls_arg or owner)
         for a_ in fdef.args.args:
             v = env.get(a_.arg)
-            if a_.annotation is None or not isinstance(v, SV) or v.ty.kind not in ('list', 'none', 'ref'): continue
+            if a_.annotation is None or not isinstance(v, SV) or v.ty.kind not in ('list', 'none', 'ref', 'tuple'): continue
             try: pty = parse_ann(a_.annotation, tvs)
             except Exception: continue
+            if v.ty.kind == 'tuple':
+                if pty is not None and pty.kind == 'list':      # a tuple display passed where a homogeneous tuple[T, ...] is expected: a fresh sequence
+                    elems_ = list(v.t)
+                    env[a_.arg] = s.new_list(st, pty, IntVal(len(elems_)), lambda k, elems_=elems_: _chain([(i_, x_.t) for i_, x_ in enumerate(elems_)], k))
+                continue
             if v.ty.kind == 'ref':
                 # a parameter annotated with a subclass of the argument's static class: a downcast, justified by an obligation on the dynamic class
                 if pty is not None and pty.kind == 'ref' and pty.arg != v.ty.arg and pty.arg in s.p.classes and v.ty.arg in s.p.classes and v.ty.arg in s.p.mro(pty.arg)[1:]:
@@ -1024,6 +1056,9 @@ class Exec:
             na = fresh('arr', IA); k = Int('k!')
             st.defs.append(ForAll([k], Select(na, k) == If(And(k >= ln, k < ln + m2), Select(a2, k - ln), Select(arr, k))))
             s.set_list(st, cur, ln + m2, na); r = cur
+        elif cur.ty == DEC or rhs.ty == DEC:
+            f = {ast.Add: 'add', ast.Sub: 'sub', ast.Mult: 'mul', ast.Div: 'div'}[type(n.op)]
+            r = SV(s.dec[f](cur.t, rhs.t), DEC)
         else:
             op = {ast.Add: lambda a, b: a + b, ast.Sub: lambda a, b: a - b}[type(n.op)]
             r = SV(op(cur.t, rhs.t), INT)
@@ -1224,6 +1259,17 @@ class Exec:
                 N = If(hi > lo, hi - lo, 0) if step == 1 else If(lo > hi, lo - hi, 0)
                 assert step in (1, -1)
                 def bind(sx, c, entry=False): sx.env[n.target.id] = SV(lo + c * step, INT)
+                return N, bind, None
+            if isinstance(it, ast.Call) and isinstance(it.func, ast.Name) and it.func.id == 'zip' and len(it.args) == 2 and isinstance(n.target, ast.Tuple):
+                sa, sb = s.ev(st_, it.args[0]), s.ev(st_, it.args[1])
+                if sa.ty.kind != 'list' or sb.ty.kind != 'list': raise Unsupported('zip of non-lists')
+                na, nb = s.llen(st_.heap, sa), s.llen(st_.heap, sb)
+                N = If(na < nb, na, nb)
+                def bind(sx, c, entry=False):
+                    sx.env['SEQ'] = sa
+                    if entry: return
+                    sx.env[n.target.elts[0].id] = SV(Select(s.lelem(sx.heap, sa), c), sa.ty.arg)
+                    sx.env[n.target.elts[1].id] = SV(Select(s.lelem(sx.heap, sb), c), sb.ty.arg)
                 return N, bind, None
             enum = isinstance(it, ast.Call) and isinstance(it.func, ast.Name) and it.func.id == 'enumerate'
             seq = s.ev(st_, it.args[0] if enum else it)
